@@ -20,7 +20,7 @@ def noHandles (s : State) : State := { s with gone := true }
 
 /-- operations that can still happen once every handle is gone -/
 def survives : Op → Bool
-  | .arrive _ _ _ => false
+  | .arrive _ _ _ _ => false
   | .dropsvc => false
   | _ => true
 
@@ -54,13 +54,13 @@ theorem pollSleeping_noHandles (s : State) (c wake : Nat) (st : Step) :
   · have h' : ¬ (noHandles s).now ≥ wake := h
     rw [if_neg h, if_neg h']
 
-theorem checked_noHandles (cfg : Cfg) (s : State) (d : Draws) :
+theorem checked_noHandles (cfg : Cfg) (s : State) (d : Decision) :
     checked cfg (noHandles s) d = noHandles (checked cfg s d) := by
   unfold checked
   split <;> rfl
 
-theorem record_noHandles (s : State) (c : Nat) (dec : Decision) (n : Nat) :
-    record (noHandles s) c dec n = noHandles (record s c dec n) := rfl
+theorem record_noHandles (s : State) (c k : Nat) (dec : Decision) :
+    record (noHandles s) c k dec = noHandles (record s c k dec) := rfl
 
 theorem enact_noHandles (s : State) (c tag : Nat) (st : Step) (dec : Decision) :
     enact (noHandles s) c tag st dec = noHandles (enact s c tag st dec) := by
@@ -71,8 +71,8 @@ theorem enact_noHandles (s : State) (c tag : Nat) (st : Step) (dec : Decision) :
       exact pollSleeping_noHandles (setPhase s c (.sleeping (s.now + ms) st)) c (s.now + ms) st
   | pass => exact startInner_noHandles s c st
 
-theorem pollFresh_noHandles (cfg : Cfg) (s : State) (c tag : Nat) (st : Step) (d : Draws) :
-    pollFresh cfg (noHandles s) c tag st d = noHandles (pollFresh cfg s c tag st d) := by
+theorem pollFresh_noHandles (cfg : Cfg) (s : State) (c k tag : Nat) (st : Step) (d : Decision) :
+    pollFresh cfg (noHandles s) c k tag st d = noHandles (pollFresh cfg s c k tag st d) := by
   unfold pollFresh
   rw [checked_noHandles, record_noHandles, enact_noHandles]
 
@@ -82,7 +82,7 @@ polls, cancellations, the clock. -/
 theorem stepS_noHandles (cfg : Cfg) (s : State) (op : Op) (h : survives op = true) :
     stepS cfg (noHandles s) op = noHandles (stepS cfg s op) := by
   cases op with
-  | arrive c tag st => simp [survives] at h
+  | arrive c k tag st => simp [survives] at h
   | dropsvc => simp [survives] at h
   | adv ms => rfl
   | poll c d =>
@@ -90,7 +90,7 @@ theorem stepS_noHandles (cfg : Cfg) (s : State) (op : Op) (h : survives op = tru
       simp only [stepS, hl]
       split
       · cases d with
-        | some d => exact pollFresh_noHandles cfg s c _ _ d
+        | some d => exact pollFresh_noHandles cfg s c _ _ _ d
         | none => rfl
       · exact pollSleeping_noHandles s c _ _
       · exact pollInner_noHandles s c _ _ _
@@ -104,7 +104,7 @@ theorem stepS_noHandles (cfg : Cfg) (s : State) (op : Op) (h : survives op = tru
 theorem stepS_noHandles_other (cfg : Cfg) (s : State) (op : Op) (h : survives op = false) :
     stepS cfg (noHandles s) op = noHandles s := by
   cases op with
-  | arrive c tag st => simp [stepS, noHandles]
+  | arrive c k tag st => simp [stepS, noHandles]
   | dropsvc => rfl
   | adv ms => simp [survives] at h
   | poll c d => simp [survives] at h
